@@ -73,6 +73,8 @@ def rule_address_modulo(chk, facts, P):
             continue
         pcvars, narrowed = set(), {}
         for b, i, ln, m in f.nodes():
+            if m[0] == 'decl' and m[2] is not None and pc_call(m[2]):
+                m = ('b', '=', ('l', m[1]), m[2])
             if is_assign(m) and m[1] == '=' and strip(m[2])[0] == 'l' and pc_call(m[3]):
                 r = m[3]
                 while isinstance(r, (list, tuple)) and r and r[0] in ('ref', 'cf'):
@@ -138,32 +140,39 @@ def rule_label_fixup(chk, facts, P):
              'a symbol entry that is kept in pLabelEntry for ChangeSymbol()', min_instances=4)
     lh = facts.func('asmlabel.c', 'LabelHandle')
     lm = facts.func('asmlabel.c', 'LabelModify')
-    val = ('p', lh.params[1]['name'])
     newv = ('p', lm.params[1]['name'])
     mod_targets = {strip(m[2]) for b, i, ln, m in lm.nodes() if is_assign(m) and m[1] == '=' and nocast(m[3]) == newv}
     changes = {strip(nocast(c[2][0])) for b, i, ln, c in lm.calls('ChangeSymbol') if c[2]}
-    n = 0
-    for b, i, ln, m in lh.nodes():
-        if is_assign(m) and m[1] == '=' and nocast(m[3]) == val:
-            n += 1
-            t = strip(m[2])
-            ok = t in mod_targets
-            chk.ob('C10-R12', 'asmlabel.c:LabelHandle:%s' % show(t), ok, lh.loc(ln), 'corrected by LabelModify()' if ok else
-                   '%s receives the label value but LabelModify() does not update it' % show(t))
-        if m[0] == 'call' and callee_name(m) and any(nocast(a) == val for a in m[2]):
-            g = P.resolve(lh.unit, callee_name(m))
-            if g is None or not (callee_name(m).startswith('Enter') or 'Symbol' in callee_name(m)):
-                continue
-            n += 1
-            # is the result kept in a variable that LabelModify() hands to ChangeSymbol()?
-            kept = any(is_assign(x) and strip(x[2]) in changes and nocast(x[3])[0] == 'call' and
-                       callee_name(nocast(x[3])) == callee_name(m) for b2, i2, l2, x in lh.nodes())
-            chk.ob('C10-R12', 'asmlabel.c:LabelHandle:%s()' % callee_name(m), kept, lh.loc(ln),
-                   'entry kept for ChangeSymbol()' if kept else
-                   '%s() defines a symbol from the label value, but the entry is not kept: when padding moves the statement '
-                   '(68000: "f1 ds.b 1 / f2 ds.w 1" in a STRUCT) the structure element is corrected and the symbol is not '
-                   '(S_F2 = 1 while the element lies at offset 2)' % callee_name(m))
-    if n < 4:
+    count = [0]
+
+    def sinks(fn, val, depth):
+        for b, i, ln, m in fn.nodes():
+            if is_assign(m) and m[1] == '=' and nocast(m[3]) == val and strip(m[2])[0] != 'l':
+                count[0] += 1
+                t = strip(m[2])
+                ok = t in mod_targets
+                chk.ob('C10-R12', 'asmlabel.c:LabelHandle:%s' % show(t), ok, fn.loc(ln), 'corrected by LabelModify()' if ok else
+                       '%s receives the label value but LabelModify() does not update it' % show(t))
+            if m[0] == 'call' and callee_name(m) and any(nocast(a) == val for a in m[2]):
+                cn = callee_name(m)
+                g = P.resolve(fn.unit, cn)
+                if g is None:
+                    continue
+                if g.unit is not fn.unit and (cn.startswith('Enter') or 'Symbol' in cn):
+                    count[0] += 1
+                    kept = any(is_assign(x) and strip(x[2]) in changes and nocast(x[3])[0] == 'call' and
+                               callee_name(nocast(x[3])) == cn for b2, i2, l2, x in fn.nodes())
+                    chk.ob('C10-R12', 'asmlabel.c:LabelHandle:%s()' % cn, kept, fn.loc(ln),
+                           'entry kept for ChangeSymbol()' if kept else
+                           '%s() defines a symbol from the label value, but the entry is not kept: when padding moves the statement '
+                           '(68000: "f1 ds.b 1 / f2 ds.w 1" in a STRUCT) the structure element is corrected and the symbol is not '
+                           '(S_F2 = 1 while the element lies at offset 2)' % cn)
+                elif g.unit is fn.unit and depth < 2:
+                    j = [k for k, a in enumerate(m[2]) if nocast(a) == val][0]
+                    if j < len(g.params):
+                        sinks(g, ('p', g.params[j]['name']), depth + 1)
+    sinks(lh, ('p', lh.params[1]['name']), 0)
+    if count[0] < 4:
         raise AnalysisBroken('LabelHandle: value sinks not found')
 
 
